@@ -34,7 +34,7 @@ RefASrc(mode, N, L, k, j) ==
     ELSE SrcExt(mode, N, 2 * k + 1 - j)
 
 \* afb1d: the stored filter is the user's flipped (user tap t sits at position L-1-t), stride 2
-ImplALen(mode, N, L) ==
+ImplACount(mode, N, L) ==
     IF mode = "periodization" THEN CorrLen((N + (N % 2)) + 2 * ((L \div 2) - 1), L, 2)
     ELSE LET pd == ImplAPads(N, L, mode)
          IN  IF mode = "zero" THEN CorrLen(N + (IF pd.p % 2 = 1 THEN 1 ELSE 0) + 2 * pd.lo, L, 2)
